@@ -1,3 +1,4 @@
+import math
 import tomllib
 import logging
 from collections import defaultdict
@@ -278,7 +279,8 @@ def run_simulator(param_input: Union[str, Dict], workload: Workload = None) -> S
     params = parse_args_with_defaults(params)
     
     # Validate constraints
-    assert (params["interactive_prob"] + params["query_prob"] + params["batch_prob"] == 1), \
+    assert math.isclose(params["interactive_prob"] + params["query_prob"] + params["batch_prob"], 1.0,
+                        rel_tol=0.0, abs_tol=1e-9), \
         "Probabilities must sum to 1"
     assert params["cpu_io_ratio"] <= 1 and params["cpu_io_ratio"] >= 0, \
         "CPU IO ratio must be between 0 and 1"
